@@ -709,6 +709,15 @@ func packagePrepareWalkFn(root string, ignoreRules *ignorefiles.Ruleset) filepat
 			}
 		}
 
+		// A symlink with an absolute target cannot be part of a relocatable
+		// package: even if it currently points into this (temporary) directory
+		// it will dangle once the directory is renamed or the bundle is moved.
+		if info.Mode()&os.ModeSymlink != 0 {
+			if target, err := os.Readlink(absPath); err == nil && filepath.IsAbs(target) {
+				return fmt.Errorf("module package path %q is a symlink with an absolute target", relPath)
+			}
+		}
+
 		// If we get here then we have a file or directory that isn't
 		// covered by the ignore rules, but we still need to make sure it's
 		// valid for inclusion in a source bundle.
